@@ -937,6 +937,44 @@ func (c *Ctx) isParamOrForwarded(v ssa.Value, prm *ssa.Parameter) bool {
 	if v == ssa.Value(prm) || c.isParamCopy(v, prm) {
 		return true
 	}
+	// peel loads, captured variables and single-assignment locals
+	for i := 0; i < 6; i++ {
+		switch x := v.(type) {
+		case *ssa.UnOp:
+			if x.Op != token.MUL {
+				return false
+			}
+			v = x.X
+			continue
+		case *ssa.FreeVar:
+			if cv := c.P.canonVar(x); cv != ssa.Value(x) {
+				v = cv
+				continue
+			}
+			return false
+		case *ssa.Alloc:
+			var st *ssa.Store
+			n := 0
+			for _, ref := range *x.Referrers() {
+				if s, ok := ref.(*ssa.Store); ok && s.Addr == ssa.Value(x) {
+					st = s
+					n++
+				}
+			}
+			if n != 1 {
+				return false
+			}
+			v = st.Val
+			continue
+		case *ssa.ChangeType:
+			v = x.X
+			continue
+		}
+		break
+	}
+	if v == ssa.Value(prm) {
+		return true
+	}
 	q, ok := v.(*ssa.Parameter)
 	if !ok {
 		return false
